@@ -763,6 +763,8 @@ func (s *scope) createInstance(descriptor *Descriptor) (any, error) {
 		// A nil output is not an instance: reject it before anything is stored, like a nil single return value
 		for _, ret := range info.Returns {
 			if !ret.IsError && results[ret.Index].Interface() == nil {
+				// What the invocation did produce stays owned and is disposed by the owner of this lifetime
+				s.trackResults(descriptor.Lifetime, info, results)
 				return nil, &ValidationError{
 					ServiceType: ret.Type,
 					Cause:       fmt.Errorf("constructor returned nil instance"),
@@ -841,6 +843,33 @@ func (s *scope) storeOutput(descriptor *Descriptor, key instanceKey, value any, 
 func sameObject(a, b any) bool {
 	t := reflect.TypeOf(a)
 	return t != nil && t.Kind() == reflect.Pointer && t == reflect.TypeOf(b) && a == b
+}
+
+// trackResults makes the owner of the given lifetime dispose the non-nil return values of an invocation none of which is stored.
+func (s *scope) trackResults(lifetime Lifetime, info *reflection.ConstructorInfo, results []reflect.Value) {
+	var tracked []any
+	for _, ret := range info.Returns {
+		if ret.IsError {
+			continue
+		}
+
+		if value := results[ret.Index].Interface(); value != nil {
+			tracked = s.trackOutput(lifetime, value, tracked)
+		}
+	}
+}
+
+// trackOutput makes the owner of the given lifetime dispose an output that is not stored under any identity, unless the
+// same invocation has already handed the object to the disposal tracking. It returns the objects tracked so far.
+func (s *scope) trackOutput(lifetime Lifetime, value any, tracked []any) []any {
+	for _, earlier := range tracked {
+		if sameObject(earlier, value) {
+			return tracked
+		}
+	}
+
+	s.trackOnly(lifetime, value)
+	return append(tracked, value)
 }
 
 // producedFor returns the value a result object carries for the registration that is being resolved, or nil when the
